@@ -1863,9 +1863,14 @@ def _guarded_param_return(f: ast.FunctionDef, ret: ast.Return, cls: str) -> bool
     return False
 
 
+CONST_TABLES: list = [set()]       # module-level names bound once to a literal of constants (set by result_kinds for the tree at hand)
+
+
 def _function_kind(f: ast.FunctionDef, cls: str | None, module_kinds: dict[str, str]) -> str:
     """Kind of the result of one function, from its own return statements."""
     recv, params, binds, origin_of_name = _origins(f, cls is not None)
+    const_tables = CONST_TABLES[0]
+    shared = {n for node in ast.walk(f) if isinstance(node, (ast.Global, ast.Nonlocal)) for n in node.names}
     rets = _own_returns(f)
     if any(isinstance(n, (ast.Yield, ast.YieldFrom)) for n in _own_nodes(f)):
         return 'ROther'                 # generator / context manager
@@ -1905,9 +1910,19 @@ def _function_kind(f: ast.FunctionDef, cls: str | None, module_kinds: dict[str, 
             else:
                 kinds.add('RUnknown')
             continue
-        if isinstance(v, (ast.Tuple, ast.JoinedStr, ast.Compare, ast.BoolOp, ast.BinOp, ast.UnaryOp, ast.Attribute, ast.Subscript, ast.IfExp,
+        if isinstance(v, (ast.Attribute, ast.Subscript)):
+            # a slot / item of the receiver, of a parameter or of a local is a number; an item or attribute of anything
+            # that OUTLIVES the call (a module- or class-level container: a cache) may be an object handed out before
+            root = v
+            while isinstance(root, (ast.Attribute, ast.Subscript)):
+                root = root.value
+            lives_in_call = isinstance(root, ast.Name) and (root.id == recv or root.id in params or root.id in binds) and root.id not in shared
+            constant_table = isinstance(root, ast.Name) and root.id in const_tables and root.id not in binds and root.id not in params
+            kinds.add('ROther' if lives_in_call or constant_table else 'RUnknown')
+            continue
+        if isinstance(v, (ast.Tuple, ast.JoinedStr, ast.Compare, ast.BoolOp, ast.BinOp, ast.UnaryOp, ast.IfExp,
                           ast.GeneratorExp, ast.ListComp, ast.List, ast.Dict)):
-            kinds.add('ROther')          # numbers, strings, tuples, slot reads: not an object of the six classes
+            kinds.add('ROther')          # numbers, strings, tuples: not an object of the six classes
             continue
         kinds.add('RUnknown')
     if not rets:
@@ -1924,6 +1939,7 @@ def result_kinds(tree: ast.Module) -> tuple[list[tuple[str, str, str]], dict]:
     """(concrete class, public method, kind) for every method of the six classes as resolved through inheritance
     (subclass first, then its base; class-level aliases `__copy__ = copy` followed; a class without __copy__/__deepcopy__
     is copied by the copy module through __reduce__)."""
+    CONST_TABLES[0] = set(_module_consts(tree))
     module_kinds: dict[str, str] = {}
     for f in tree.body:
         if isinstance(f, ast.FunctionDef) and f.name.startswith('_mk'):
@@ -2466,6 +2482,125 @@ def copy_shapes(tree: ast.Module) -> tuple[list[tuple[str, str, str, str]], dict
     return out, {'copy_shapes_not_understood': why}
 
 
+# ---------------------------------------------------------------------------------------------- state kept between calls
+_MUTATING_CALLS = {'append', 'add', 'setdefault', 'update', 'pop', 'clear', 'extend', 'insert', 'remove', 'popitem', 'discard', '__setitem__',
+                   '__delitem__', 'appendleft', 'sort', 'reverse', 'move_to_end'}
+_CACHE_DECORATORS = {'lru_cache', 'cache', 'cached_property'}
+_IMMUTABLE_RESULT = {'str', 'float', 'int', 'bool', 'bytes'}
+
+
+def shared_state(tree: ast.Module) -> list[tuple[str, str, str]]:
+    """Round 5 (histories).  The models of the frame, copy and hash theorems have ONE kind of state: the objects themselves
+    (registers).  That is adequate only if no function of math.py keeps anything else from one call to the next.  This
+    census lists every place where a function or method could: a `global`/`nonlocal` statement; a store into (or delete
+    from) an attribute or item of a module-level name or of a class (`_CACHE[key] = obj`, `Vec._interned[...] = ...`,
+    `cls.registry = ...`, `type(self).last = ...`, `setattr(Module_or_Class, ...)`); a mutating method call on such a name
+    (`_CACHE.setdefault(...)`, `.append`, `.pop` ...) or on a parameter with a mutable default; a caching decorator (`lru_cache`, `cache`, `cached_property`) on a
+    function whose declared result is not an immutable scalar/string.  Rows: (function, kind, name).  Today: none.
+    Functions built by exec() from the operator templates are not seen here (the in-place census reads those)."""
+    module_level: set[str] = set()
+    for n in tree.body:
+        for t in _targets(n):
+            if isinstance(t, ast.Name):
+                module_level.add(t.id)
+    classes = {n.name for n in ast.walk(tree) if isinstance(n, ast.ClassDef)}
+    rows: set[tuple[str, str, str]] = set()
+
+    def root(e: ast.AST) -> ast.AST:
+        while isinstance(e, (ast.Attribute, ast.Subscript)):
+            e = e.value
+        return e
+
+    def deco(d: ast.AST) -> str | None:
+        if isinstance(d, ast.Call):
+            d = d.func
+        return d.attr if isinstance(d, ast.Attribute) else d.id if isinstance(d, ast.Name) else None
+
+    def one(fn: ast.FunctionDef, q: str) -> None:
+        for d in fn.decorator_list:
+            if deco(d) in _CACHE_DECORATORS:
+                r = fn.returns
+                rn = r.id if isinstance(r, ast.Name) else r.value if isinstance(r, ast.Constant) and isinstance(r.value, str) else None
+                if rn not in _IMMUTABLE_RESULT:
+                    rows.add((q, 'cached_result', str(deco(d))))
+        params = {a.arg for a in fn.args.posonlyargs + fn.args.args + fn.args.kwonlyargs}
+        for va in (fn.args.vararg, fn.args.kwarg):
+            if va is not None:
+                params.add(va.arg)
+        outer: set[str] = set()
+        local = set(params)
+        for n in ast.walk(fn):
+            if isinstance(n, (ast.Global, ast.Nonlocal)):
+                outer.update(n.names)
+            elif isinstance(n, ast.Name) and isinstance(n.ctx, ast.Store):
+                local.add(n.id)
+        local -= outer
+        for g in sorted(outer):
+            rows.add((q, 'global_statement', g))
+        # a mutable default argument is created once and shared by all calls: `def thaw(self, _memo={})`
+        pos = fn.args.posonlyargs + fn.args.args
+        defaults = list(zip(pos[len(pos) - len(fn.args.defaults):], fn.args.defaults)) + \
+            [(a, d) for a, d in zip(fn.args.kwonlyargs, fn.args.kw_defaults) if d is not None]
+        mutable_default = {a.arg for a, d in defaults
+                           if isinstance(d, (ast.Dict, ast.List, ast.Set, ast.ListComp, ast.DictComp, ast.SetComp))
+                           or (isinstance(d, ast.Call) and not (isinstance(d.func, ast.Name) and d.func.id in ('float', 'int', 'str', 'bool', 'tuple', 'frozenset', 'object')))}
+        first = fn.args.args[0].arg if fn.args.args else None
+        is_cm = any(deco(d) == 'classmethod' for d in fn.decorator_list) or fn.name in ('__new__', '__init_subclass__', '__class_getitem__')
+
+        def outlives(r: ast.AST) -> str | None:
+            if isinstance(r, ast.Name) and r.id in mutable_default:
+                return f'default of {r.id}'
+            if isinstance(r, ast.Name):
+                if r.id not in local and (r.id in module_level or r.id in classes):
+                    return r.id
+                if is_cm and r.id == first:
+                    return r.id                                   # the class itself
+            if isinstance(r, ast.Call) and isinstance(r.func, ast.Name) and r.func.id == 'type':
+                return 'type(...)'
+            if isinstance(r, ast.Attribute) and r.attr == '__class__':
+                return '__class__'
+            return None
+        for n in ast.walk(fn):
+            tg: list[ast.AST] = []
+            if isinstance(n, ast.Assign):
+                tg = list(n.targets)
+            elif isinstance(n, (ast.AugAssign, ast.AnnAssign)):
+                tg = [n.target]
+            elif isinstance(n, ast.Delete):
+                tg = list(n.targets)
+            for t in tg:
+                for e in _flat(t):
+                    if isinstance(e, (ast.Attribute, ast.Subscript)):
+                        r = e
+                        while isinstance(r, (ast.Attribute, ast.Subscript)):
+                            if isinstance(r, ast.Attribute) and r.attr == '__class__':
+                                break
+                            r = r.value
+                        w = outlives(r)
+                        if w is not None:
+                            rows.add((q, 'store_into_module_or_class_level_object', w))
+            if isinstance(n, ast.Call) and isinstance(n.func, ast.Attribute) and n.func.attr in _MUTATING_CALLS:
+                w = outlives(root(n.func.value))
+                if w is not None and not (is_cm and w == first):
+                    rows.add((q, 'mutating_call_on_module_or_class_level_object', f'{w}.{n.func.attr}'))
+            if isinstance(n, ast.Call) and isinstance(n.func, ast.Name) and n.func.id in ('setattr', 'delattr') and n.args:
+                w = outlives(root(n.args[0]))
+                if w is not None:
+                    rows.add((q, 'store_into_module_or_class_level_object', w))
+
+    def visit(node: ast.AST, qual: list[str]) -> None:
+        for ch in ast.iter_child_nodes(node):
+            if isinstance(ch, ast.ClassDef):
+                visit(ch, qual + [ch.name])
+            elif isinstance(ch, (ast.FunctionDef, ast.AsyncFunctionDef)):
+                one(ch, '.'.join(qual + [ch.name]))
+                visit(ch, qual + [ch.name])
+            else:
+                visit(ch, qual)
+    visit(tree, [])
+    return sorted(rows)
+
+
 # ---------------------------------------------------------------------------------------------- emit
 def _s(x: str) -> str:
     return '"' + x.replace('"', "'") + '"'
@@ -2500,6 +2635,7 @@ def translate() -> tuple[str, dict]:
     info.update(einfo)
     specs = format_spec_cfgs(tree)
     info.update(hinfo)
+    shared = shared_state(tree)
     # __str__: three numbers separated by single spaces
     def plain3(p, sep, fam, pre='', post=''):
         want = ([['lit', pre]] if pre else []) + [['num', fam[0]], list(sep), ['num', fam[1]], list(sep), ['num', fam[2]]] + ([['lit', post]] if post else [])
@@ -2553,7 +2689,7 @@ def translate() -> tuple[str, dict]:
         '].',
         '(* what copy / __copy__ / __deepcopy__ / __reduce__ / freeze / thaw build: (class, method, class of the result, slot transfer) *)',
         'Definition copy_shapes : list copy_entry := [',
-        ';\n'.join(f'  ({_s(c)}, {_s(m)}, {_s(rc)}, {t})' for c, m, rc, t in shapes),
+        ';\n'.join(f'  ({_s(c)}, {_s(m)}, {_s(rc)}, {"FrozenCopyValue.CUnknown" if t == "CUnknown" else t})' for c, m, rc, t in shapes),
         '].',
         '(* hash(obj) for the six concrete classes after Python\'s resolution of __hash__ / __eq__ *)',
         'Definition hash_kinds : list hash_row := [',
@@ -2569,12 +2705,16 @@ def translate() -> tuple[str, dict]:
     ] + [
         '(* == on two objects of one family: comparison per slot; != is its negation *)',
         'Definition eq_shapes : list eq_row := [',
-        ';\n'.join(f'  ({_s(c)}, [' + '; '.join(f'({_s(sl)}, {k})' for sl, k in cm) + '])' for c, cm in eqs),
+        ';\n'.join(f'  ({_s(c)}, [' + '; '.join(f'({_s(sl)}, {"FrozenEq.CUnknown" if k == "CUnknown" else k})' for sl, k in cm) + '])' for c, cm in eqs),
         '].',
         f'Definition ne_is_negation_of_eq : bool := {b(einfo["ne_is_negation_all"])}.',
         '(* every in-place operator method: (defining class, name) *)',
         'Definition inplace_rows : list inplace_row := [',
         ';\n'.join(f'  ({_s(c)}, {_s(m)})' for c, m in inplace),
+        '].',
+        '(* state a function keeps between calls besides the objects themselves: (function, kind, name) *)',
+        'Definition shared_state : list (string * string * string) := [',
+        ';\n'.join(f'  ({_s(q)}, {_s(k)}, {_s(w)})' for q, k, w in shared),
         '].',
         '(* methods whose result the census treats as a new object because of their NAME, with the kind read from their returns *)',
         'Definition fresh_by_name : list (string * rkind) := [',
@@ -2582,7 +2722,7 @@ def translate() -> tuple[str, dict]:
         '].',
         '',
     ]
-    side = {'eq_shapes': [[c, [list(x) for x in cm]] for c, cm in eqs], 'format_spec': specs, 'inplace_rows': [list(r) for r in inplace], 'hash_kinds': [list(h) for h in hashes], 'angle_ctor_rows': [list(r) for r in ctor_rows], 'fresh_by_name': [list(x) for x in fresh], 'copy_shapes': [list(x) for x in shapes], 'angle_sites': [list(s) for s in sites], 'angle_creations': [list(c) for c in creations], 'format_float': cfg, 'parse_vec_str': pcfg, 'str_templates': strs,
+    side = {'shared_state': [list(r) for r in shared], 'eq_shapes': [[c, [list(x) for x in cm]] for c, cm in eqs], 'format_spec': specs, 'inplace_rows': [list(r) for r in inplace], 'hash_kinds': [list(h) for h in hashes], 'angle_ctor_rows': [list(r) for r in ctor_rows], 'fresh_by_name': [list(x) for x in fresh], 'copy_shapes': [list(x) for x in shapes], 'angle_sites': [list(s) for s in sites], 'angle_creations': [list(c) for c in creations], 'format_float': cfg, 'parse_vec_str': pcfg, 'str_templates': strs,
             'mut_events': [list(m) for m in muts], 'result_kinds': [list(r) for r in results], 'n_methods': len(meths), **info,
             'digests': {'parse_vec_str': _digest(tree, 'parse_vec_str'), 'format_float': cfg['digest']}}
     return '\n'.join(lines), side
